@@ -20,7 +20,7 @@ RULE = (
     "strategy: all 2^L words over {failure, reset} (L=14 quick, 17 thorough), current_delay_sec checked after every prefix, for max_delay in {1,2,3,5,60,3600}; random words up to 200 "
     "with random max_delay 1..3600. manager: all words over {ok, fail} up to length 8 (thorough; 6 quick) x connection lifetime patterns {1,3,7,20 s mixes} x (threshold, sleep, max_delay) "
     "configurations on the virtual loop (after the word every attempt fails); oracle on every gap: after the n-th consecutive failure min(2^(n-1),max_delay) <= gap <= max(that, sleep)+0.25 s slack; "
-    "after a loss that follows the previous loss within the threshold gap >= sleep; every gap <= max(back-off, sleep)+0.25. "
+    "after a loss that follows the previous loss within the threshold gap >= sleep; all words up to length 3 (4 thorough) over {ok, fail, slow ok, slow fail} containing a slow attempt (2.5 s); 0.05 s after every success the strategy object must report 0; every gap <= max(back-off, sleep)+0.25. "
     "evaluations = words/scenarios executed; distinct non-trivial = distinct words/scenarios (by construction for the enumerated parts) containing >= 1 failure."
 )
 ASSUMPTIONS = [
@@ -105,6 +105,10 @@ def judge_manager(events, cfg, ctx, case) -> int:
             ctx.count(f"failures_n{min(n_fail, 8)}")
         elif kind == "attempt_ok":
             n_fail = 0
+        elif kind == "backoff_delay_while_connected":
+            ctx.count("backoff_probes_while_connected")
+            if ev[4] != 0:
+                ctx.violation("C18:manager:success-does-not-reset-backoff", f"0.05 s after attempt {ev[3]} succeeded the strategy object still reports a delay of {ev[4]} s (cfg {cfg})", case)
         elif kind == "lost":
             within = last_loss is not None and (t - last_loss) < thr
             if last_loss is not None and abs((t - last_loss) - thr) < 1e-6:
@@ -122,7 +126,8 @@ def judge_manager(events, cfg, ctx, case) -> int:
 
 
 def run_manager_scenario(word, lifetimes, cfg, ctx, shim=True):
-    outcomes = ["ok" if o else "fail" for o in word]
+    outcomes = [o if isinstance(o, str) else ("ok" if o else "fail") for o in word]
+    word = [1 if str(o).endswith("ok") or o == 1 else 0 for o in word]
     lts = []
     li = 0
     for o in word:
@@ -194,6 +199,20 @@ def run(shard, ctx):
                     if n <= 1:
                         ctx.sample({"word": "".join("ok " if o else "fail " for o in word), "lifetimes": lifetimes, "cfg": cfg, "events": [list(e) for e in res["events"][:14]]})
         ctx.enumerated(n, n)
+        # slow attempts: the back-off counts from the moment the attempt FAILED, however long the attempt took
+        if shard["rem"] == 0:
+            m = 0
+            for length in range(1, 5 if shard.get("full") else 4):
+                for word in itertools.product(("ok", "fail", "slow_ok", "slow_fail"), repeat=length):
+                    if not any(o.startswith("slow") for o in word):
+                        continue
+                    cfg = CONFIGS[m % len(CONFIGS)]
+                    res = run_manager_scenario(word, LIFETIME_PATTERNS[m % len(LIFETIME_PATTERNS)], cfg, ctx)
+                    case = {"word": list(word), "lifetimes": LIFETIME_PATTERNS[m % len(LIFETIME_PATTERNS)], "cfg": cfg}
+                    ctx.count("gaps_judged", judge_manager(res["events"], cfg, ctx, case))
+                    ctx.count("manager_scenarios_with_slow_attempts")
+                    m += 1
+            ctx.enumerated(m, m)
 
 
 def replay(case, ctx):
@@ -210,7 +229,7 @@ def finalize(agg, tier):
     reasons = []
     if c.get("strategy_words_enumerated", 0) != (2 ** L) * len(MAX_DELAYS):
         reasons.append(f"strategy enumeration incomplete: {c.get('strategy_words_enumerated', 0)} of {(2 ** L) * len(MAX_DELAYS)}")
-    for k in ("gaps_judged", "losses_within_threshold", "losses_outside_threshold", "failures_n5", "calibration_ok"):
+    for k in ("gaps_judged", "losses_within_threshold", "losses_outside_threshold", "failures_n5", "calibration_ok", "backoff_probes_while_connected", "manager_scenarios_with_slow_attempts"):
         if c.get(k, 0) == 0:
             reasons.append(f"monitor never observed '{k}'")
     return {"exhaustive": not reasons, "exhaustive_scope": f"strategy: all failure/reset words of length {L} x 6 max_delay values; manager: all ok/fail words up to length {8 if tier == 'quick' else 9} (quick: lifetime pattern and configuration assigned round-robin; thorough: x all 6 lifetime patterns x 3 configurations)"}, reasons
